@@ -155,6 +155,9 @@ Proof.
   destruct (ttype_of_byte b); cbn [good]; [lia|discriminate].
 Qed.
 
+Lemma good_clear {A} (o : res (A * rst)) s k : good o (clear_pfield s) k -> good o s k.
+Proof. destruct o as [[a s']| |]; cbn [good]; auto. Qed.
+
 Lemma r_field_begin_good p s : good (r_field_begin p s) s 1.
 Proof.
   destruct p; cbn [r_field_begin].
@@ -162,6 +165,7 @@ Proof.
        intros ty s' Hs'; destruct ty; try (cbn; lia);
        (change 0%nat with (0 + 0)%nat; eapply good_bind; [apply (good_weaken _ _ 1); [lia|apply r_i16_good]|];
         intros a s'' Hs''; cbn; lia).
+  apply good_clear. generalize (clear_pfield s). clear s. intros s.
   change 1%nat with (1 + 0)%nat. eapply good_bind; [apply r_byte_good|].
   intros b s1 H1.
   set (X := if b mod 16 =? ctype_code CBooleanTrue then _ else _).
